@@ -245,9 +245,15 @@ def run_case(ctx, old_qs, op, form, arg, sig_extra=(), base_text="http://example
         case["pairs"] = _argjson(list(arg.items()))
     if encoded:
         case["encoded"] = True
+    lenient_old = False
     if got_old != old:
+        # the reference reading of the existing query differs from the library's (escapes that are not UTF-8: C06 / D17 own what
+        # .query shows for them).  The algebra is still checked on the receiver's OWN view: pairs the operation does not touch must
+        # read the same before and after
         ctx.count("existing_query_out_of_model")
-        return
+        if is_exc(got_old) or any(not isinstance(k, str) or not isinstance(v, str) for k, v in got_old):
+            return
+        old, lenient_old = got_old, True
     before = snapshot(arg)
 
     def call():
@@ -335,7 +341,7 @@ def run_case(ctx, old_qs, op, form, arg, sig_extra=(), base_text="http://example
         return
     # raw side: every raw key/value decodes to the model text; nothing else of the URL changed
     raw = res.raw_query_string
-    if ref_parse_plain(raw, True) != got:
+    if not lenient_old and ref_parse_plain(raw, True) != got:
         ctx.fail("raw_query_decodes_differently", case, f"raw={raw!r} decodes to {ref_parse_plain(raw, True)!r}, accessor says {got!r}")
         return
     for attr in ("scheme", "raw_authority", "raw_path", "raw_fragment"):
@@ -392,7 +398,9 @@ def run_kernel(ctx):
             if ctx.mine(i):
                 run_case(ctx, old, op, "none", None, ("k",))
     # existing queries in every odd SHAPE: ending / starting with a separator-like character, bare flags, blank values, empty pieces
-    for old in ("a=1;", "a=1&", "&a=1", "a=1&&b=2", "a", "a&b", "=", "a=;b", ";", "a=1=", "a==", "a=1+", "+", "a=%26;", "a=1;b=2", "b;", "a=1?", "a=1/", "a=1%3B", "flag&a=1", "a=1&flag"):
+    for old in ("a=1;", "a=1&", "&a=1", "a=1&&b=2", "a", "a&b", "=", "a=;b", ";", "a=1=", "a==", "a=1+", "+", "a=%26;", "a=1;b=2", "b;", "a=1?", "a=1/", "a=1%3B", "flag&a=1", "a=1&flag",
+                # pairs with escapes that are not UTF-8 (judged on the receiver's own view of them)
+                "a=%FF&b=1", "k%80=v&b=1", "a=%C3&b=%ED%A0%80", "%FF=%FE&a=1", "b=%E2%82&a=%80%80"):
         for new in ([("c", "n0")], [("a", "n0")], [("c", "n0"), ("d", "n1")], []):
             for op in ("with_query", "extend_query", "update_query", "mod"):
                 for form in ("str", "dict", "list", "kwargs", "mdict"):
